@@ -5,7 +5,7 @@ From Coq Require Import ZArith List.
 From ZV.Mem Require Import CompressBound.
 From ZV.Codec Require Import FrameInspect.
 Extraction "Extract/out/c06model.ml"
-  bound compressBound_fn raw_frame replay_frame worst_frame optimal_block_size nb_blocks
+  bound compressBound_fn raw_frame replay_frame worst_frame suff_capacity cctx_block_size optimal_block_size nb_blocks
   frame_header_size get_frame_header get_frame_content_size find_frame_size_info find_frame_compressed_size
   decompress_bound decompression_margin find_decompressed_size DECOMPRESSION_MARGIN
   ser_frames inplace_decode margin_of regen_frames bound_frames.
